@@ -54,6 +54,7 @@ type Contract struct {
 	OpaqueAt bool   // (b []byte, p int, ...) -> UF(bytes of b, off(b)+p, ...)
 	Extent   string // opaque-at function giving the number of bytes the value depends on (frame axiom)
 	Axioms   []*Clause
+	Falsify  []*Clause
 }
 
 // parseContracts reads //@ blocks from the zz_verif_contracts*.go files of a package.
@@ -170,6 +171,14 @@ func (p *Program) contractLine(pk *packages.Package, cur **Contract, line, pos s
 			return fmt.Errorf("%s: bad ghost type %q", pos, t)
 		}
 		c.Ghost = append(c.Ghost, GhostParam{Name: n, Type: te})
+	case "falsify":
+		// falsify <expr>: quantifier-free stand-in for the requires clauses when the unit is
+		// re-run as a falsifier (contracts ignored, loops unrolled); must imply them.
+		cl, err := mkClause(rest)
+		if err != nil {
+			return err
+		}
+		c.Falsify = append(c.Falsify, cl)
 	case "trusted":
 		c.Trusted = true
 	case "proved":
